@@ -23,6 +23,12 @@ VARIANTS = [
     ("argparse", {}),
 ]
 CONFIGS = [dict(fmt=f, kw=kw, style=s, emit_default_doc=d) for f, kw in VARIANTS for s in F.STYLES for d in (False, True)]
+# keyword arguments of the emitters that the configurations above leave at their defaults (ReST, emit_default_doc off and on)
+CONFIGS += [dict(fmt=f, kw=kw, style="rest", emit_default_doc=d) for f, kw in (
+    ("function", dict(type_annotations=True, emit_as_kwonlyargs=False, function_type="self")),
+    ("function", dict(type_annotations=False, emit_as_kwonlyargs=False, function_type="cls")),
+    ("class", dict(class_bases=("Base", "Mixin"), decorator_list=["dataclass"])),
+) for d in (False, True)]
 
 RULES = {
     "class": {},
@@ -116,6 +122,10 @@ def ctx_of(cfg):
     if cfg["fmt"] == "function":
         c["type_annotations"] = cfg["kw"]["type_annotations"]
         c["kwonly"] = cfg["kw"]["emit_as_kwonlyargs"]
+        if cfg["kw"].get("function_type"):
+            c["function_type"] = cfg["kw"]["function_type"]
+    if cfg["kw"].get("class_bases"):
+        c["class_kwargs"] = True
     return c
 
 
